@@ -1,7 +1,7 @@
 import BqVerif.Proofs.Sched
 import BqVerif.Proofs.Mailbox
 import BqVerif.Proofs.Worker
-import BqVerif.Model.FineWake
+import BqVerif.Proofs.FineWake
 import BqVerif.Proofs.StartOnceNet
 import BqVerif.Proofs.IntegrityNet
 import BqVerif.Proofs.RetOnceNet
@@ -11,6 +11,7 @@ import BqVerif.Proofs.SchedExact
 import BqVerif.Proofs.WakeNet
 import BqVerif.Proofs.WakeNet2
 import BqVerif.Proofs.WorkersInv
+import BqVerif.Proofs.MapArgs
 /-!
 # C07 — every awaited runtime future resolves exactly once with its own result
 
@@ -90,6 +91,35 @@ theorem C07_L_mailbox_refines (n : Nat) :
    fun _ _ h => ⟨h.ready_iff, h.value⟩⟩
 
 example : (((Box.new (some 2)).deposit 1 [7]).deposit 0 [5]).value = [1, 2, 5, 7] := by decide
+
+/-- **`map` over argument sequences of different lengths (L).**  `Worker.map(fn, *args)` zips its
+    argument sequences: with `n` the minimum of their lengths (`mapCount`), exactly the first `n`
+    child programs get a task (slots `0 … n-1`), the mailbox is created with `n` slots
+    (`Box.new (some n)` in `runBody`, `.map ps` with `ps.length = n`), and for any results `ds` of
+    pairwise distinct created tasks the mailbox is ready **exactly when all `n` created tasks have
+    returned** - never earlier, and (because no slot is left that nobody fills) always then.
+    Sizing the mailbox by `len(args[0])` instead would break the right-to-left direction whenever
+    the first sequence is not the shortest one. -/
+theorem C07_L_map_zip_slots (pids others : List Nat) :
+    let n := mapCount (pids.length :: others)
+    Instr.mapArgs pids others = .map (pids.take n)
+    ∧ (pids.take n).length = n
+    ∧ (∀ l ∈ pids.length :: others, n ≤ l) ∧ n ∈ pids.length :: others
+    ∧ ∀ (ds : List (Nat × Val)), (∀ d ∈ ds, d.1 < n) → (ds.map (·.1)).Nodup →
+        ((depositAll (Box.new (some n)) ds).ready = true ↔ (ds.length = n ∧ 0 < n)) := by
+  intro n
+  have hs := mapCount_spec pids.length others
+  refine ⟨rfl, ?_, hs.1, hs.2, fun ds h1 h2 => map_ready_iff n ds h1 h2⟩
+  have := hs.1 pids.length (by simp)
+  simp only [List.length_take]
+  omega
+
+/-- non-vacuity: `map(f, [p7, p8, p9, p7], [x, y])` creates two tasks in a two-slot mailbox, which
+    is ready after both results and not after one -/
+example :
+    mapCount [4, 2] = 2 ∧ Instr.mapArgs [7, 8, 9, 7] [2] = .map [7, 8]
+    ∧ (depositAll (Box.new (some 2)) [(1, [5]), (0, [6])]).ready = true
+    ∧ (depositAll (Box.new (some 2)) [(1, [5])]).ready = false := by decide
 
 /-- **Mailbox refinement (L), `next()` batches.** For any sequence of deposits and
     `get_new_results` calls on a mailbox, the batches handed out so far followed by what is
@@ -453,41 +483,54 @@ example :
         = [.server, .wrk 0, .wrk 1, .server, .server] := by
   refine ⟨by decide, by decide⟩
 
-/-- **Line-level race (finding).** In the source-line model of `_process_await` ∥
-    `_handle_result` the schedule in which the incoming thread handles the result of `f0`
-    right after the main thread executed `box.dest_addr = task.return_address` puts the
-    task's address into the ready queue twice; the first wake-up consumes `f0` and parks the
-    task on `f1`; the stale second wake-up then hits `assert box.ready` on the non-ready
-    mailbox of `f1` (`failed`).  Replayed on the real `Worker` with `sys.settrace`. -/
-theorem C07_fine_double_wake_witness :
-    (FineWake.run {} FineWake.raceSchedule).main = .failed
-    ∧ (FineWake.run {} FineWake.raceSchedule).maxReady = 2
-    ∧ (FineWake.run {} FineWake.atomicSchedule).main = .blocked 1
-    ∧ (FineWake.run {} FineWake.atomicSchedule).maxReady = 1 := by
-  decide
-
-/-- **With one lock around `_process_await` and `_handle_result` the race is gone** (the
-    proposed patch): in the source-line model with a lock, for *every* schedule of the two
-    threads the assertion is never hit and the task is never in the ready queue twice.
-    (Finite reachable set, closed under both step functions, checked by `decide`.) -/
+/-- **Line level: the code as it is (with `self._mailbox_mutex`) never wakes a task twice.**
+    Source-line model of `_process_await` ∥ `_handle_result` with the lock both bodies run under
+    (`FineWake.run true`): for **every** schedule of the two threads no exception leaves task code
+    (`assert box.ready` of `_get_desired_result`, 'Cannot await on a canceled task.'), the incoming
+    thread does not crash, and the task's address is never in the ready queue twice.
+    (Finite reachable set, closed under both step functions, checked by `decide`; the statements
+    and the extent of the `with` blocks are tied to the source by the AST query and the
+    scheduler-controlled line-level runs of `harness/runtime_fine.py`.) -/
 theorem C07_fine_lock_safe (sched : List Bool) :
-    (FineWake.runL {} sched).s.main ≠ .failed ∧ (FineWake.runL {} sched).s.maxReady ≤ 1 := by
-  have hclosed : ∀ l ∈ FineWake.reach,
-      FineWake.stepMainL l ∈ FineWake.reach ∧ FineWake.stepIncL l ∈ FineWake.reach := by
+    (FineWake.runL {} sched).main ≠ .failed ∧ (FineWake.runL {} sched).inc ≠ .crashed
+    ∧ (FineWake.runL {} sched).maxReady ≤ 1 := by
+  have hsafe : ∀ l ∈ FineWake.reach, l.main ≠ .failed ∧ l.inc ≠ .crashed ∧ l.maxReady ≤ 1 := by
     decide +kernel
-  have hsafe : ∀ l ∈ FineWake.reach, l.s.main ≠ .failed ∧ l.s.maxReady ≤ 1 := by decide +kernel
-  have hinit : ({} : FineWake.LState) ∈ FineWake.reach := by decide +kernel
-  have hrun : ∀ (sc : List Bool) (l : FineWake.LState), l ∈ FineWake.reach →
-      FineWake.runL l sc ∈ FineWake.reach := by
-    intro sc
-    induction sc with
-    | nil => intro l hl; exact hl
-    | cons b t ih =>
-      intro l hl
-      cases b
-      · exact ih _ (hclosed l hl).2
-      · exact ih _ (hclosed l hl).1
-  exact hsafe _ (hrun sched _ hinit)
+  exact hsafe _ (FineWake.run_reach sched _ FineWake.reach_init)
+
+/-- **Line level: no lost wake-up, no deadlock on the lock.**  After *any* schedule prefix the two
+    threads can still finish: some continuation delivers both results, wakes the task exactly when
+    its awaited mailbox is complete, and the task returns (`finished`); and a state in which neither
+    thread can move is the final state. -/
+theorem C07_fine_lock_complete (sched : List Bool) :
+    (∃ ext, (FineWake.runL {} (sched ++ ext)).main = .finished
+        ∧ (FineWake.runL {} (sched ++ ext)).inc = .done)
+    ∧ (FineWake.stepMain true (FineWake.runL {} sched) = FineWake.runL {} sched →
+       FineWake.stepInc true (FineWake.runL {} sched) = FineWake.runL {} sched →
+       (FineWake.runL {} sched).main = .finished ∧ (FineWake.runL {} sched).inc = .done) := by
+  have hcompl : ∀ l ∈ FineWake.reach,
+      (FineWake.runL l FineWake.completion).main = .finished
+      ∧ (FineWake.runL l FineWake.completion).inc = .done := by decide +kernel
+  have hstuck : ∀ l ∈ FineWake.reach, FineWake.stepMain true l = l → FineWake.stepInc true l = l →
+      l.main = .finished ∧ l.inc = .done := by decide +kernel
+  have hr := FineWake.run_reach sched _ FineWake.reach_init
+  refine ⟨⟨FineWake.completion, ?_⟩, hstuck _ hr⟩
+  rw [FineWake.run_append]
+  exact hcompl _ hr
+
+/-- REGRESSION (pre-fix variant `run false`, NOT the code as it is): without the lock the schedule
+    in which the incoming thread handles the result of `f0` right after the main thread executed
+    `box.dest_addr = task.return_address` puts the task's address into the ready queue twice; the
+    stale second wake-up hits `assert box.ready` on the mailbox of `f1` (`failed`).  This was the
+    finding `fine-race:double-wake` (fixed by the maintainer's mailbox-mutex commit); the same
+    schedule is harmless under the lock (the incoming thread's steps do not move while the main
+    thread is inside `_process_await`). -/
+example :
+    (FineWake.run false {} FineWake.raceSchedule).main = .failed
+    ∧ (FineWake.run false {} FineWake.raceSchedule).maxReady = 2
+    ∧ (FineWake.runL {} FineWake.raceSchedule).main ≠ .failed
+    ∧ (FineWake.runL {} FineWake.raceSchedule).maxReady ≤ 1 := by
+  decide
 
 
 end BqVerif.Runtime
